@@ -198,6 +198,8 @@ def ops_grid(cfgname):
     add("flush_all", "flush_all", noreply=False)
     add("flush_all-delay", "flush_all", 3)
     add("quit", "quit")
+    # a value the server refuses with SERVER_ERROR (one byte over the item size limit)
+    add("set-oversized", "set", "k-big", b"x" * ((1 << 20) + 1), noreply=False)
     add("set-badexpire", "set", "k", b"v", expire="soon")
     add("incr-baddelta", "incr", "num", "1")
     add("get_many", "get_many", ["h1", "m1", "num"])
@@ -432,6 +434,17 @@ def shard(tier, seed, idx, n):
     rng = random.Random(seed * 7 + 16)
     for cfgname, cfg in cfgs:
         grid = [g for g in ops_grid(cfgname) if "bad key" not in repr(g[2])]
+        # targeted: a reply that is a memcached error (not a connection failure), then ordinary calls
+        bylabel = {g[0]: g for g in grid}
+        for first in ("set-oversized", "incr-txt", "cas-int-illegal"):
+            if first not in bylabel:
+                continue
+            work += 1
+            if work % n != idx:
+                continue
+            ops = [bylabel[first], bylabel["get-hit"], bylabel["set-bytes-False"], bylabel["get_many"], bylabel["incr-num"]]
+            compare_session(res, cfgname, cfg, ops, ("session", cfgname, [o[0] for o in ops]))
+            res.case(("session", cfgname, tuple(o[0] for o in ops)))
         for si in range(6 if tier == "quick" else 40):
             ops = [rng.choice(grid) for _ in range(rng.randrange(3, 7))]
             work += 1
